@@ -71,6 +71,21 @@ def check(name, y, miss, rep):
                           f"result depends on the placeholder: encoding '{lab}' vs '{base[0]}' differ at cells {d.tolist()[:6]} (lopt {lopt} vs {base[2]}); out={out.tolist()[:8]}",
                           tags=["nan-inf"] if lab in ("nan", "+inf", "-inf", "mixed") else (["robust"] if "robust" in name else []))
             return
+    # zero weight through every robust round: an independent re-statement of the robust scheme in which the missing cells never
+    # carry weight must give the same band (a missing cell re-armed by a later re-weighting is not a placeholder dependence)
+    if "robust" in name and base is not None and nvalid >= need and miss.any():
+        from standin.c05 import robust_reference
+        try:
+            refband, reflopt = robust_reference(np.where(miss, 0.0, y), (~miss).astype("float64"), LLG, 0.9 if "asym" in name else None)
+            out0, lopt0 = base[1].astype(float), float(base[2])
+            if abs(reflopt - lopt0) <= 1e-9 * reflopt and np.abs(refband).max() < 32000 and np.abs(out0 - refband).max() > 1:
+                d = np.flatnonzero(np.abs(out0 - refband) > 1)
+                rep.violation(name + ".zero_weight", name, {"variant": name, "encoding": base[0], "n": len(y), "nvalid": nvalid, "nodata": -3000.0,
+                                                            "y": np.where(miss, -3000.0, y).tolist() if len(y) <= 40 else None},
+                              f"band differs from the robust scheme with zero weight on the missing cells at cells {d.tolist()[:6]} (e.g. {int(out0[d[0]])} vs {refband[d[0]]:.0f}); missing: {np.flatnonzero(miss).tolist()[:8]}",
+                              tags=["robust"])
+        except ZeroDivisionError:
+            pass
     # gap-filled value of the fitted curve (fixed-lambda variant has a closed form)
     if name == "fixed" and nvalid >= 2 and base is not None:
         z = pls_exact(np.where(miss, 0.0, y), 100.0, (~miss).astype(int))
@@ -95,6 +110,11 @@ def run(tier, rng, rep):
                     miss[:] = True; miss[rng.choice(n, k, replace=False)] = False
                 for name in VARIANTS:
                     check(name, y, miss, rep)
+                if kind in ("random", "runs", "leading"):
+                    # signed data: the fitted curve is negative at some gaps (the internal fill value 0 is then above the curve)
+                    y, miss = gappy_series(rng, n, kind, -2500, 2500)
+                    for name in VARIANTS:
+                        check(name, y, miss, rep)
 
 
 def replay(v, rep):
